@@ -1114,6 +1114,8 @@ def run(ctx):
         "aeif / atomic_indicator_field: value of the nearest atom when the point lies inside any sphere of the conformer, else 0; grid points where "
         "'nearest atom' and 'nearest atom among the spheres containing the point' differ in value are not compared (the text does not choose)",
         "van der Waals radii are read from Atom.vdw_radius (input data of the definition)",
+        "caller-supplied nearest_atom_idx tables (cut-offs below / at / above the largest radius, nearly all and all -1): per conformer and grid point the value of the "
+        "table's atom when the entry is >= 0 and the point is inside some sphere, otherwise 0; -1 means 'no atom'",
         "argument kinds: rectangular_grid corners as list / tuple / ndarray of the requested dtype / of the other float dtype / non-contiguous view / read-only array; "
         "grids (and value/radius/index arrays) for the descriptors and kernel inputs as C / Fortran / sliced / read-only ndarrays of both float widths (lists are only "
         "given where the signature says ArrayLike). After every call every caller-owned array must be bit-identical to its snapshot, and the same call repeated on the "
@@ -1156,6 +1158,7 @@ def run(ctx):
         jobs.append(("history:ens3", hist.descriptor_history_job, {"seed": seed, "thorough": thorough, "part": "ens3", "lo": lo, "hi": lo + 1}))
     jobs.append(("history:geom", hist.descriptor_history_job, {"seed": seed, "thorough": thorough, "part": "geom"}))
     jobs.append(("argument-kinds", hist.argkind_job, {"seed": seed, "thorough": thorough}))
+    jobs.append(("caller-tables", hist.table_job, {"seed": seed, "thorough": thorough}))
     ctx.bound["history"] = {
         "ensemble_functions": list(hist.ENS_FUNCS), "ensemble_edits": list(hist.ENS_EDITS), "geometry_functions": list(hist.GEOM_FUNCS), "geometry_edits": list(hist.GEOM_EDITS),
         "calls_per_sequence": "2 (all ordered function pairs x every edit) and 3 (reduced menus)", "base_objects": nb,
@@ -1216,6 +1219,10 @@ def replay(ctx, case):
         from mc.props import c19_history as hist
 
         hist.replay_history(ctx, agg, case)
+    elif kind == "table":
+        from mc.props import c19_history as hist
+
+        hist.replay_table(ctx, agg, case)
     elif kind == "argkind":
         from mc.props import c19_history as hist
 
